@@ -76,7 +76,17 @@ func (g G) Blocked() bool {
 // MutexBlocked reports whether g waits on a sync mutex (not durable in synctest).
 func (g G) MutexBlocked() bool {
 	s := g.State
-	return strings.HasPrefix(s, "sync.Mutex.Lock") || strings.HasPrefix(s, "sync.RWMutex.") || strings.HasPrefix(s, "semacquire")
+	return strings.HasPrefix(s, "sync.Mutex.Lock") || strings.HasPrefix(s, "sync.RWMutex.")
+}
+
+// Transient reports a short-lived runtime-internal wait (plain semacquire, GC
+// assist ...). The runtime prints such goroutines WITHOUT their synctest
+// bubble annotation, so a goroutine in one of these states may belong to any
+// bubble and is about to run again: the system is not quiescent.
+func (g G) Transient() bool {
+	s := g.State
+	return s == "semacquire" || strings.HasPrefix(s, "semacquire,") || strings.HasPrefix(s, "GC ") || strings.HasPrefix(s, "waiting") ||
+		strings.HasPrefix(s, "force gc") || strings.HasPrefix(s, "debug call") || strings.HasPrefix(s, "trace")
 }
 
 func ownBubble() (id, bubble string) {
@@ -97,6 +107,9 @@ func ownBubble() (id, bubble string) {
 	}
 	return m[1], bubble
 }
+
+// LastQuiesceDump is the snapshot the last Quiesce call decided on (debugging aid).
+var LastQuiesceDump string
 
 // QuiesceInfo describes a quiescent bubble.
 type QuiesceInfo struct {
@@ -121,11 +134,22 @@ func Quiesce() QuiesceInfo {
 		if global != nil {
 			global.progress.Add(1)
 		}
-		gs := ParseStacks(Stacks())
+		LastQuiesceDump = Stacks()
+		gs := ParseStacks(LastQuiesceDump)
 		info := QuiesceInfo{OK: true}
 		all := true
 		for _, g := range gs {
-			if g.ID == me || g.Bubble != bubble {
+			if g.ID == me {
+				continue
+			}
+			if g.Bubble != bubble {
+				// not (visibly) ours: only a goroutine that is running or in a
+				// transient runtime wait matters, because the annotation is
+				// missing in those states and it may be one of ours
+				if g.Bubble == "" && (!g.Blocked() || g.Transient()) {
+					all = false
+					break
+				}
 				continue
 			}
 			info.Goroutines++
